@@ -17,7 +17,7 @@ LEVEL = "exploration"
 TECHNIQUE = "bounded-exhaustive enumeration of all DAG pipelines x outputs x argument cuts, lazy vs reference evaluator, task graph vs reference dependency edges"
 RULE = ("the pipelines, outputs and argument combinations of C02 (G-DAG N<=2 decorated + N=3 quick; thorough adds the N=4 single-output family) with lazy=True, "
         "with and without an active construct_dag() (and, once per pipeline, right after a construct_dag() block that was left through an exception, and with list-valued inputs rendered type-strictly), evaluate() called three times, and every ordered pair of requested outputs "
-        "evaluated in both orders on one lazy pipeline - as two plain requests, inside ONE construct_dag() block, and with cache=True on every function. non-trivial = distinct (pipeline, output, cut, mode) with >= 2 functions on the dependency path")
+        "evaluated in both orders on one lazy pipeline - as two plain requests, inside ONE construct_dag() block, and with cache=True on every function. Plus: lazy results inside list/tuple/set arguments in one dag block, and a function OWNED by a lazy pipeline (built from PipeFuncs / from plain callables) called directly with a deferred argument. non-trivial = distinct (pipeline, output, cut, mode) with >= 2 functions on the dependency path")
 ASSUMPTIONS = c02.ASSUMPTIONS + ["task-graph nodes whose func is not a PipeFunc are output pickers and are contracted"]
 BUDGET = {"quick": 110.0, "thorough": 900.0}
 
@@ -223,6 +223,31 @@ def check_containers():
     return res
 
 
+def check_direct_call():
+    """a function OWNED by a lazy pipeline called directly with deferred arguments (PipeFunc.__call__ evaluates them when a
+    lazy pipeline owns the function) - for pipelines built from PipeFunc objects and from plain callables"""
+    from pipefunc import PipeFunc, Pipeline
+    res = []
+    for form in ("pipefunc", "callable"):
+        terms.LOG.clear()
+        fo = terms.make_function("o", ["x"])
+        ft = terms.make_function("t", ["o", "y"])
+        try:
+            with contextlib.redirect_stdout(io.StringIO()):
+                pl = Pipeline([PipeFunc(fo, "o"), PipeFunc(ft, "t")] if form == "pipefunc" else [fo, ft], lazy=True)
+                lo = pl("o", x="<x>")
+                val = pl["t"](o=lo, y="<y>")
+                val = val.evaluate() if isinstance(val, _LazyFunction) else val
+        except Exception as e:  # noqa: BLE001
+            res.append((findings.exc_sig(e, mode="direct-call", built_from=form), f"owned function called with a deferred argument raised {type(e).__name__}: {str(e)[:120]}"))
+            continue
+        names = sorted(n for n, _ in terms.LOG)
+        if str(val) != "t(o(<x>),<y>)" or names != ["o", "t"]:
+            res.append(({"kind": "value-mismatch", "mode": "direct-call", "built_from": form},
+                        f"lazy pipeline built from {form}s: pl['t'](o=<deferred o>, y=...) = {val!r} (executed {names}), eager t(o(<x>),<y>)"))
+    return res
+
+
 def run_spec(spec, acc):
     try:
         p0 = gen_dag.build(spec)
@@ -283,6 +308,9 @@ def run_unit(unit):
         acc.stratum("containers-of-lazies")
         for sig, text in check_containers():
             acc.violation(sig, {"containers": True}, text)
+        acc.case(("direct-call",))
+        for sig, text in check_direct_call():
+            acc.violation(sig, {"direct_call": True}, text)
         return acc
     for k, spec in enumerate(c02.specs_for(st)):
         if k % n == c:
@@ -291,6 +319,8 @@ def run_unit(unit):
 
 
 def replay(art):
+    if art.get("direct_call"):
+        return [s for s, _ in check_direct_call()]
     if art.get("containers"):
         return [s for s, _ in check_containers()]
     spec = art["spec"]
